@@ -38,8 +38,25 @@ def run(prog, chk):
     C03.top_level_predicate(prog, chk)
     C03.qualified_names(prog, chk)  # start and end tag carry the same (qualified) name
     no_double_hyphen_literals(prog, chk)
+    attribute_lists_validated(prog, chk)
     from props import C01
     C01.utf8_boundary(prog, chk)  # output is UTF-8 because every input event was validated (pass-through carries bytes along)
+
+
+def attribute_lists_validated(prog, chk):
+    """a start tag that is passed through as-is (real SVG) is copied byte for byte, so its attribute list has to be
+    well-formed already when it is read: InputList::from_reader walks `attributes()` of every start / empty tag and
+    returns an error for the first malformed attribute (duplicate name, unquoted value)"""
+    fr = prog.body("svgdx::events::InputList::from_reader")
+    chk.touch(fr)
+    sites = fr.call_sites(lambda c: c.path.endswith("BytesStart::<'a>::attributes") or c.path.endswith("BytesStart::attributes") or (c.path.split("::")[-1] == "attributes" and "BytesStart" in c.inst))
+    ok = False
+    for (bb, t, c) in sites:
+        # an error return is reachable after the scan and before the event is stored
+        region = fr.reach([t["t"]])
+        if R.assigns_result_variant(fr, region, "Err"):
+            ok = True
+    chk.ob(ok, "A13.attr-lists-validated", "from_reader", fr.where(sites[0][0], sites[0][1].get("line")) if sites else fr.where(), "the attribute list of every start / empty tag is scanned for syntax errors when the document is read", "InputList::from_reader does not scan the attribute lists of the tags it reads: a real SVG document whose start tag has a duplicate attribute or an unquoted value is accepted and copied to the output as it is - output that no XML parser accepts (svgdx-mode documents fail later, when the element is built)")
 
 
 def no_double_hyphen_literals(prog, chk):
